@@ -239,7 +239,7 @@ class _AccLoop(GhostIterable):
 
     def step(self, interp, env, broke):
         self.h.check("the loop does not stop early", not broke)
-        self.h.check(f"{self.var} not rebound (prefix kept)", env.lookup(self.var) is self.acc)
+        self.h.shape(f"{self.var} not rebound (prefix kept)", env.lookup(self.var) is self.acc)
 
 
 def p1_structures(tier):
@@ -280,7 +280,7 @@ def p1(h, st):
     src.__dict__ = {"_gates": wl}
     stub(h, CIRC, "Circuit.width", lambda a, k: w)
     js = h.call(TI, "translate_c_to_json_ionq", src)
-    h.check("writer: loop body entered once for the generic gate", wl.iterations == 1)
+    h.shape("writer: loop body entered once for the generic gate", wl.iterations == 1)
     h.check("writer: source gate unchanged", snapshot(g.__dict__) == gb)
     h.check("writer: exactly one entry appended per gate", len(wl.acc.appended) == 1 and isinstance(wl.acc.appended[0], dict))
     h.check("writer: the entries and the source's width are returned", isinstance(js, dict) and js.get("circuit") is wl.acc and js.get("qubits") is w)
@@ -292,7 +292,7 @@ def p1(h, st):
     stub(h, CIRC, "Circuit.__init__", lambda a, k: None, log=log_init)
     stub(h, CIRC, "Circuit.__add__", lambda a, k: Opaque("sum", of=(a[0], a[1])), log=log_add)
     out = h.call(TI, "translate_c_from_json_ionq", {"qubits": w, "circuit": rl})
-    h.check("reader: loop body entered once for the generic entry", rl.iterations == 1)
+    h.shape("reader: loop body entered once for the generic entry", rl.iterations == 1)
     h.check("reader: JSON entry unchanged", snapshot(entry) == eb)
     h.check("reader: exactly one gate appended per entry", len(rl.acc.appended) == 1 and isinstance(rl.acc.appended[0], Gate))
     g2 = rl.acc.appended[0]
@@ -306,7 +306,7 @@ def p1(h, st):
     else:
         h.check("round trip: no parameter", g2.parameter in ("", None))
     # width: Circuit(n_qubits=w) + Circuit(gates)
-    h.check("reader: result is Circuit(n_qubits=recorded width) + Circuit(gates)", len(log_add) == 1 and len(log_init) == 2 and isinstance(out, Opaque))
+    h.shape("reader: result is Circuit(n_qubits=recorded width) + Circuit(gates)", len(log_add) == 1 and len(log_init) == 2 and isinstance(out, Opaque))
     if len(log_init) == 2 and len(log_add) == 1:
         ia, ib = log_init
         first = ia if ia[0][0] is log_add[0][0][0] else ib
